@@ -1,9 +1,25 @@
 package main
 
-import "go/types"
+import (
+	"encoding/json"
+	"go/types"
+	"os"
+)
 
-func cmdCheck(args []string)    {}
 func cmdSelftest(args []string) {}
-func cmdReplay(args []string)   {}
 
 func ptrTo(t types.Type) types.Type { return types.NewPointer(t) }
+
+// propAssumptions reads the per-property list of sub-claims that are assumed,
+// not proved (DESIGN sections 6 and 7).
+func propAssumptions(prop string) []string {
+	data, err := os.ReadFile("/verif/assumptions.json")
+	if err != nil {
+		return []string{"(assumptions.json missing)"}
+	}
+	var m map[string][]string
+	if json.Unmarshal(data, &m) != nil {
+		return []string{"(assumptions.json unreadable)"}
+	}
+	return append(append([]string{}, m["*"]...), m[prop]...)
+}
